@@ -82,6 +82,21 @@ fn op_case(ctx: &mut Ctx, parser: &liquid::Parser, kind: &str, t: Vec<Node>, dat
             k = format!("OPAPI:{}", kind);
         }
     }
+    // where the value model orders the two values, its equality and its ordering must tell the same
+    // story (== exactly when the ordering says Equal): the branch taken for `==` / `!=` is judged by
+    // the ordering as well
+    if let (Some(o), Obs::Ok(s)) = (ValueViewCmp::new(a).partial_cmp(&ValueViewCmp::new(b)), &obs) {
+        let want = match op {
+            CmpOp::Eq => Some(o == std::cmp::Ordering::Equal),
+            CmpOp::Ne => Some(o != std::cmp::Ordering::Equal),
+            _ => None,
+        };
+        if let Some(w) = want {
+            if s != if w { "T" } else { "F" } {
+                k = format!("OPAPI:{}", kind);
+            }
+        }
+    }
     ctx.emit(render_case("c06", &k, &t, data, &[], &obs));
 }
 
